@@ -162,6 +162,14 @@ func (w *World) nodeOp(n *Node, s *Step) {
 		w.opPrune(n, s)
 	case "ingest":
 		w.opIngest(n, s)
+	case "part":
+		d := s.Arg
+		if d < 0 {
+			d = -d
+		}
+		n.partUntil = w.now + int64(d%200)
+		w.stats.Faults["partition"]++
+		w.logf("%s: partitioned from the source until t=%d", n.name, n.partUntil)
 	case "snap":
 		w.opSnapshot(n, s)
 	case "crash":
